@@ -407,8 +407,31 @@ func runC16Handshake(c *Ctx) {
 	if len(recs) > 0 {
 		r.Sample(map[string]interface{}{"part": "hsreader", "case": recs[len(recs)/2].cs})
 	}
+	// the writer: the bytes writeMessage produced for the valid messages vs Model.HsReader.frame of their payload
+	var flines []string
+	for _, m := range valid {
+		flines = append(flines, "frame "+hexs(m[6:]))
+	}
+	if fout, err := Model("hsreader", flines); err != nil {
+		r.Disagree("c16-hsframe-model", err.Error(), nil)
+	} else {
+		for i, m := range valid {
+			r.Case("hsframe:"+flines[i][:min2(len(flines[i]), 80)], true)
+			if fout[i] != hexs(m) {
+				r.Disagree("c16-hsframe", fmt.Sprintf("writeMessage produced %s…, the model's frame is %s…", hexs(m[:8]), fout[i][:min2(len(fout[i]), 16)]), nil)
+				break
+			}
+		}
+	}
 	hsPublicAPIHostile(c)
 	hsSlowTrickle(c)
+}
+
+func min2(a, b int) int {
+	if a < b {
+		return a
+	}
+	return b
 }
 
 // hsSlowTrickle: the listed finding C16/handshake-trickle-holds-acceptor, replayed on every run. A client that
